@@ -40,6 +40,13 @@ Proof. exact reseat_correct_any_order. Qed.
 Theorem C11_no_extend_implies_guard : forall thr l, no_extend thr l = true -> reseat_guard thr l = true.
 Proof. exact no_extend_guard. Qed.
 
+(* any initial offset: the TimingMap built by from_bpm_changes_snap(init, l, reseat=True) has its tempo points at
+   init + (times of the reseated list r) with r's bpms (both code paths: reseat, or l already seated) *)
+Theorem C11_from_bcs_reseat_correct : forall init l, wf_unseated l = true -> reseat_guard THRESHOLD l = true ->
+  exists r bcos, reseat l = ROk r /\ ReseatOK l r /\ from_bcs_reseat init l = Some bcos /\
+                 Forall2 (bco_near init) bcos (timeline 0 r).
+Proof. exact from_bcs_reseat_correct. Qed.
+
 (* 3. an already seated list needs no guard: same length, same times, same bpms *)
 Theorem C11_reseat_seated_fixpoint : forall l, wf_unseated l = true -> seated l = true ->
   exists r, reseat l = ROk r /\ length r = length l /\
